@@ -73,7 +73,20 @@ for pid in sorted(os.listdir(SRC)):
                 txt = open(notes).read()
             else:
                 txt = ""
-            meta["what_it_needs"] = "see notes.md (written by the independent sub-agent that produced the change)"
+            import re as _re
+            title = txt.strip().splitlines()[0].lstrip("# ").strip() if txt.strip() else ""
+            needs = ""
+            for sec in _re.split(r"\n#+ ", "\n" + txt):
+                head = sec.splitlines()[0].lower() if sec.strip() else ""
+                if "manifest" in head or "trigger" in head or "needs" in head:
+                    needs = " ".join(sec.splitlines()[1:]).strip()[:700]
+                    break
+            if not needs:
+                mm = _re.search(r"(?i)(trigger[^\n]*\n(?:.*\n){0,6})", txt)
+                needs = mm.group(1).strip()[:700] if mm else "see notes.md"
+            meta["summary"] = title
+            meta["breaks"] = pid
+            meta["what_it_needs"] = needs
             meta["ran"] = [
                 f"git worktree of /repo at {head}; git apply patch.diff",
                 "/verif/tools/baseline.py <worktree>  (540/540 stable-pass tests must pass)",
